@@ -117,7 +117,7 @@ class Ctx:
         out = []
         for k, lst in self.bodies(body.crate).items():
             for b in lst:
-                if b.kind == "Closure" and b.owner_fn == body.key and b.key.startswith(body.key + "::{closure"):
+                if b.kind == "Closure" and b.key.startswith(body.key + "::{closure") and "::{closure" not in b.key[len(body.key) + 3:]:
                     out.append(b)
         return out
 
